@@ -32,7 +32,24 @@ def tables():
 
 
 # ------------------------------------------------------------------------------------------ species
-QTEXT = {None: 0, "": 0, "+": 1, "-": -1, "+2": 2, "-3": -3, "+1": 1, "-1": -1, "-2": -2, "+3": 3}
+class _Charge(dict):
+    """signed charge number of a suffix text: '' -> 0, '+' -> 1, '-' -> -1, '+12' -> 12, '-26' -> -26"""
+    def __missing__(self, q):
+        if not q:
+            return 0
+        if q in ("+", "-"):
+            return 1 if q == "+" else -1
+        sign = -1 if q[0] == "-" else 1
+        digits = q[1:]
+        if q[0] not in "+-" or not digits.isdigit():
+            raise ValueError("charge suffix " + repr(q))
+        n = 0
+        for ch in digits:                       # plain positional decimal value, every digit counts
+            n = 10 * n + "0123456789".index(ch)
+        return sign * n
+
+
+QTEXT = _Charge()
 
 
 def species_string(sym, A=None, qtext=None):
